@@ -33,6 +33,21 @@ fn pure_criticality(s: &St) -> (f64, f64, f64) {
 /// independent recomputation of the mixture criticality conditions from the public
 /// getters: smallest eigenvalue of q_ij = sqrt(N_i N_j) d2(A/kT)/dN_i dN_j and the third
 /// directional derivative along its eigenvector (finite difference of the quadratic form)
+/// second smallest eigenvalue of the scaled composition Hessian (see mixture_criticality)
+fn second_eigenvalue(s: &St) -> Option<f64> {
+    let n = s.moles.to_reduced();
+    let nc = n.len();
+    if nc < 2 {
+        return None;
+    }
+    let t = s.temperature.to_reduced();
+    let d = s.dmu_dni(Contributions::Total).to_reduced();
+    let q = DMatrix::from_fn(nc, nc, |i, j| d[[i, j]] / t * (n[i] * n[j]).sqrt());
+    let mut ev: Vec<f64> = SymmetricEigen::new(q).eigenvalues.iter().cloned().collect();
+    ev.sort_by(|a, b| a.partial_cmp(b).unwrap_or(std::cmp::Ordering::Equal));
+    ev.get(1).cloned()
+}
+
 fn mixture_criticality(s: &St) -> Option<(f64, f64, Vec<f64>)> {
     let n = s.moles.to_reduced();
     let nc = n.len();
@@ -258,13 +273,26 @@ fn mixtures(m: &mut Monitor, cfg: &Config) {
                 if m.samples.len() < 4 {
                     m.sample(json!({"model": spec.label(), "x": x, "Tc": s.temperature.to_reduced(), "lambda_min": lam, "cubic_form_scaled": c}));
                 }
+                // stationary points far below any fluid temperature of the mixture (T < 0.3 min eps/k;
+                // SAFT-VR Mie returns them at large negative pressure, the mixture analogue of finding
+                // F18): neither the library's nor the harness's third derivatives mean anything there
+                let t_floor = 0.3 * spec.pure.iter().filter_map(|r| r["model_record"].get("epsilon_k").or_else(|| r["model_record"].get("tc")).and_then(|v| v.as_f64())).fold(f64::INFINITY, f64::min);
+                if s.temperature.to_reduced() < t_floor {
+                    m.count("mixture_stationary_points_below_0.3_eps_over_k", 1);
+                    m.skip("mixture:cubic form=0", "stationary point below 0.3 eps/k (unphysical region, cf. F18): not judged");
+                    return;
+                }
                 m.check("mixture:smallest eigenvalue=0", &sig("eigenvalue"), case, lam.abs(), TOL_MIX, || info.clone());
                 if c.is_nan() {
                     // the recomputation evaluates neighbouring compositions; a NaN there (SAFT-VR Mie
                     // cross-association, finding F26 of C09) says nothing about the returned point
                     m.skip("mixture:cubic form=0", "recomputation not finite at a neighbouring composition (unresolved)");
+                } else if second_eigenvalue(&s).map_or(false, |l2| l2.abs() < 1e-2) {
+                    // two soft modes (second eigenvalue of the scaled Hessian below 1e-2): the direction of
+                    // the cubic form is not determined by the smallest eigenvalue alone
+                    m.skip("mixture:cubic form=0", "second eigenvalue also close to zero: critical direction ambiguous (unresolved)");
                 } else {
-                    m.check("mixture:cubic form=0", &sig("cubic form"), case, c.abs(), TOL_CUBIC, || info.clone());
+                    m.check("mixture:cubic form=0", &sig("cubic form"), case, c.abs(), TOL_CUBIC, || json!({"info": info, "lambda_min": lam, "lambda_2": second_eigenvalue(&s), "cubic": c, "T": s.temperature.to_reduced(), "rho": s.density.to_reduced(), "p": s.pressure(Contributions::Total).to_reduced()}));
                 }
                 let pcrit = s.pressure(Contributions::Total).to_reduced();
                 // positive pressure is only stated for pure substances; mixture critical points
